@@ -4,6 +4,7 @@ import (
 	"encoding/json"
 	"fmt"
 	"os"
+	"regexp"
 	"strings"
 	"testing"
 
@@ -115,6 +116,11 @@ func filler(kind, n, salt int) []byte {
 	}
 	return out
 }
+
+var tokenRe = regexp.MustCompile(`<[a-z][0-9]{5}:tk>`)
+
+// findToken returns the first text token in b ("" if none).
+func findToken(b []byte) string { return string(tokenRe.Find(b)) }
 
 var lenClasses = []int{0, 1, 7, 60, 250, 700, 1500, 5000}
 
